@@ -70,22 +70,23 @@ CHECKS = {
 
 # appended to the level texts: what rounds 7-8 of the seeded changes and the coverage measurement added
 LATER = {
- "C02": " A quarter of the merges go into a copy of the receiver (accumulator idiom); the part the copy came from is re-observed at the end.",
+ "C07": " After every grammar stream the extreme indexes of both stores must be those of the bins that hold weight (zero-count blocks move no extreme).",
+ "C02": " A quarter of the merges go into a copy of the receiver (accumulator idiom); the part the copy came from is re-observed at the end. In 15% of the cases several parts are copies of one used-and-cleared prototype.",
  "C04": " Kept protobuf messages are consumed up to three times, also into cleared or new stores that then go on in place; hand-written blocks in the three documented layouts (signed deltas, negative/zero strides, repeats) are decoded into the live store.",
  "C05": " The walk also consumes kept protobuf messages several times and decodes hand-written blocks with negative/zero strides into collapsed receivers.",
- "C06": " 40% of the concatenations are decoded into stores recycled by the provider (earlier decode, queried, cleared).",
- "C08": " Receivers are fresh, non-empty, or used over the source's index range and cleared (retained memory).",
- "C09": " Half of the sources are converted again after a decode replaced their mapping by an Equals-but-not-identical one (earlier message scribbled on); half of the rebuilt sketches go on and the same message is read a second time.",
+ "C06": " 40% of the concatenations are decoded into stores recycled by the provider (earlier decode, queried, cleared). The bytes of the caller's array beyond the appended encoding must stay untouched.",
+ "C08": " Receivers are fresh, non-empty, or used over the source's index range and cleared (retained memory). Two different mapping blocks in one stream (no mapping supplied) must be refused.",
+ "C09": " Half of the sources are converted again after a decode replaced their mapping by an Equals-but-not-identical one (earlier message scribbled on); half of the rebuilt sketches go on and the same message is read a second time. The stores of an earlier message are edited; later messages of the sketch and of a brand-new empty sketch must still agree with the streaming writer.",
  "C10": " Refused merges (also into an empty or just cleared receiver) are among the rejected calls; exact sketches also go through the protobuf form with statistics rebuilt by NewSummaryStatisticsFromData / NewDDSketchWithExactSummaryStatisticsFromData; one case in ten drives stat.SummaryStatistics directly (Add, AddToCount/AddToSum, MergeWith, Reweight, Rescale, Copy, Clear, FromData); same-signed sums beyond the float64 range must be the infinity of that sign.",
- "C11": " Every answer of the batch query is judged like a single answer; a fifth of the multisets receive their tail as an encoding decoded after a query.",
- "C12": " Identity conversions (equal mapping, scale 1) are part of the histories.",
- "C13": " Non-positive Reweight factors are also sent to the sketch's two stores; merges of very coarse mappings (bases 1e3..1e15) must be refused; whether a merge is refused must not depend on merges accepted before (near-twin chains).",
+ "C11": " Every answer of the batch query is judged like a single answer; a fifth of the multisets receive their tail as an encoding decoded after a query. The copy that goes its own way is reweighted before anything else in half of the cases.",
+ "C12": " Identity conversions (equal mapping, scale 1) are part of the histories. Same-signed sums near or beyond the float64 range are never NaN (infinity of their sign when clearly out of range).",
+ "C13": " Non-positive Reweight factors are also sent to the sketch's two stores; merges of very coarse mappings (bases 1e3..1e15) must be refused; whether a merge is refused must not depend on merges accepted before (near-twin chains). A quarter of the sketches first decode a near-twin mapping: refusal limits follow the mapping the sketch then carries.",
  "C14": " The race-detector pass covers more than copies: receiver and argument of a merge into an empty sketch, source and result of an identity conversion, a sketch and the one decoded from its encoding, a sketch and the one rebuilt from its protobuf message (message re-read meanwhile).",
  "C15": " The store walk also consumes kept protobuf messages several times and decodes hand-written blocks.",
- "C16": " 70% of the sketches are queried right before the call, 30% receive a refused Reweight first, 60% go on afterwards (reweighted sketch and scaled-adds twin absorb the same further additions and are compared again); sparse-store exact sketches are pushed beyond the float64 range by the reweighting (sum must be the infinity of its sign).",
- "C17": " Half of the results are queried through the batch entry point.",
- "C18": " The first case of every worker process probes one function family before anything else of the package has run; a race-instrumented pass lets 4x8 goroutines encode/decode into their own buffers (round trips verified, any DATA RACE report is a violation).",
- "C19": " Near twins (base/offset differing in the last bits; zero vs tiny offset): Equals symmetric, each read back as itself right after its twin in all three forms; messages are values (edited/recycled, then ToProto again); the second mapping of the case is read back in the same process.",
+ "C16": " 70% of the sketches are queried right before the call, 30% receive a refused Reweight first, 60% go on afterwards (reweighted sketch and scaled-adds twin absorb the same further additions and are compared again); sparse-store exact sketches are pushed beyond the float64 range by the reweighting (sum must be the infinity of its sign). GetSum is asked before the call and the plain variant's sum compared with the twin's.",
+ "C17": " Half of the results are queried through the batch entry point. In the identity case the result (or source) is reweighted before anything else.",
+ "C18": " The first case of every worker process probes one function family before anything else of the package has run; a race-instrumented pass lets 4x8 goroutines encode/decode into their own buffers (round trips verified, any DATA RACE report is a violation). Bytes of the caller's array beyond the appended encoding must stay untouched.",
+ "C19": " Near twins (base/offset differing in the last bits; zero vs tiny offset): Equals symmetric, each read back as itself right after its twin in all three forms; messages are values (edited/recycled, then ToProto again); the second mapping of the case is read back in the same process. Equals gates MergeWith, DecodeAndMergeWith and the decode of both encodings from one stream.",
  "C20": " A dataset is merged with itself and the same argument twice; same-signed values near the top of the float64 range (overflowed sum = infinity of that sign).",
 }
 
